@@ -1,6 +1,7 @@
 import Driver.Run
 import Driver.Fam.Cluster
+import Driver.Fam.CliRender
 open Driver
 /-- families of area "cluster" -/
 def main (args : List String) : IO UInt32 := run [Fam.cluster_dump, Fam.cluster_files, Fam.remote, Fam.cli,
-       Fam.repeat_, Fam.order, Fam.concurrent, Fam.repeat_cli, Fam.catmut] args
+       Fam.repeat_, Fam.order, Fam.concurrent, Fam.repeat_cli, Fam.catmut, Fam.clirender] args
